@@ -66,24 +66,29 @@ def r_C11de(root):
             if ul != "lookup_list" or um != "matched_path":
                 okr = False; out.append(Finding("C11", "C11.d", R, "RRELNavigation.apply.lookup", " ".join(ast.unparse(r).split()), "a result that selects no object by name changes the remaining names or the matched path"))
         ob("C11", "C11.d", R, "RRELNavigation.apply.lookup", " ".join(ast.unparse(r).split())[:100], okr)
-    # ---- C11.e
-    da = find(t, "RRELDots.apply"); inst += 1
-    loop = next((n for n in da.body if isinstance(n, ast.While)), None)
-    if loop is None: raise AnalysisError("RRELDots.apply: parent loop not found")
-    cnt = None
-    for n in ast.walk(loop.test):
-        if isinstance(n, ast.Compare) and isinstance(n.left, ast.Name) and isinstance(n.comparators[0], ast.Constant): cnt = n.left.id
-    if cnt is None: raise AnalysisError("RRELDots.apply: step counter not found")
-    after = da.body[da.body.index(loop) + 1:]
-    names, rows = atoms.table(after, feasible=None)
-    exhausted_atoms = [a for a in names if a.replace(" ", "") in ("%s<=1" % cnt, "%s>1" % cnt, "%s==1" % cnt, "%s<2" % cnt)]
-    none_when_left = any(r.exit_kind == "return" and ast.unparse(r.exit_node.value.elts[0] if isinstance(r.exit_node.value, ast.Tuple) else r.exit_node.value) == "None" for r in rows)
-    oke = bool(exhausted_atoms) and none_when_left
-    before = da.body[:da.body.index(loop)]
-    early = [n for s in before for n in ast.walk(s) if isinstance(n, ast.Return)]
-    ob("C11", "C11.e", R, "RRELDots.apply", "after the parent loop: result depends on whether all steps were taken (%s)" % exhausted_atoms, oke)
+    # ---- C11.e  decided by evaluating RRELDots.apply (sa/pyeval.py) for num = 1..4 dots on objects with 0..3 ancestors
+    from sa import pyeval
+    da = find_i(root, R, "RRELDots.apply"); inst += 1
+    params = [a.arg for a in da.args.args]
+    if len(params) < 2: raise AnalysisError("RRELDots.apply: parameters not found")
+    bad = None; n_cases = 0
+    for num in (1, 2, 3, 4):
+        for depth in (0, 1, 2, 3):
+            chain = [{".name": "o0"}]
+            for k in range(depth): chain.append({".name": "o%d" % (k + 1)}); chain[-2][".parent"] = chain[-1]
+            env = {"self.num": num, params[1]: chain[0]}
+            for extra_ in params[2:]: env[extra_] = ["x"] if "lookup" in extra_ else []
+            try: res = pyeval.run_block(da.body, env)
+            except pyeval.Unsupported as e: raise AnalysisError("RRELDots.apply: outside the evaluated subset: %s" % e)
+            except pyeval.Raised as e: res = ("raise", e.cls)
+            got = res[0] if isinstance(res, (list, tuple)) and res else res
+            want = chain[num - 1] if depth >= num - 1 else None
+            n_cases += 1
+            if got is not want and bad is None: bad = (num, depth, got if not isinstance(got, dict) else got.get(".name"), want if want is None else want[".name"])
+    oke = bad is None
+    ob("C11", "C11.e", R, "RRELDots.apply", "%d dots on an object with k ancestors, evaluated for %d cases: the (num-1)-th ancestor or no match" % (4, n_cases), oke)
     if not oke:
-        out.append(Finding("C11", "C11.e", R, "RRELDots.apply", " ".join(ast.unparse(after[-1]).split())[:100] if after else "", "the object reached is returned even when fewer than num-1 parent steps could be taken: too many dots clamp at an ancestor/the model root instead of yielding no match, which pre-empts later alternatives", witness="'...' evaluated from an object with only one ancestor"))
+        out.append(Finding("C11", "C11.e", R, "RRELDots.apply", "%d dots, object with %d ancestor(s)" % (bad[0], bad[1]), "%d dots on an object with %d ancestor(s) yield %s, documented %s (the ancestor %d levels up, no match if there are not that many)" % (bad[0], bad[1], bad[2], bad[3], bad[0] - 1), witness="'....' used two levels below the root"))
     # ---- C12.d
     rp = find(t, "RRELPath.__repr__"); fir = sem.info(rp); inst += 1
     conds = [n.test for n in own_nodes(rp) if isinstance(n, (ast.If, ast.IfExp))]
